@@ -25,6 +25,7 @@ func init() {
 	register(&Prop{
 		ID: "C04",
 		Rule: "values of every kind (Node, Way, Relation, Changeset, Note, User, Bounds, OSM, Change, Diff) generated from a seed with every optional field toggled independently (annotated way nodes, member orientation and nested nodes, updates, committed times, element bounds, top-level bounds inside OSM and inside every osmChange block, diff actions of every type), strings needing escapes; plus container shapes and flat records compared with the schema model; " +
+			"every value marshalled through a pointer and by value (same text required); references beyond 2^53; diff actions with any combination of element/old/new; " +
 			"non-trivial = every rt/names/attrs op; distinct = distinct op line",
 		Gen:       c04Gen,
 		Exec:      c04Exec,
